@@ -788,6 +788,18 @@ func (e *Env) call(x *ECall) TV {
 		return TV{T: "(" + fn + " " + v.T + ")", Ty: types.NewInterfaceType(nil, nil)}
 	case "strlen":
 		return TV{T: "(strlen " + arg(0).T + ")", Ty: types.Typ[types.Int]}
+	case "lookup": // lookup(m, k): Go's m[k] (zero value when the key is absent or the map is nil)
+		m := arg(0)
+		k := arg(1)
+		mt, ok := m.Ty.Underlying().(*types.Map)
+		if !ok {
+			tfail("lookup needs a map")
+		}
+		md, mv, _ := mapComps(c, mt)
+		ks, vs := c.sortOf(mt.Key()), c.sortOf(mt.Elem())
+		d := c.comp(e.st, md, "(Array Ref (Array "+ks+" Bool))")
+		v := c.comp(e.st, mv, "(Array Ref (Array "+ks+" "+vs+"))")
+		return TV{T: "(ite (and (not (= " + m.T + " null)) " + sel(d, m.T, k.T) + ") " + sel(v, m.T, k.T) + " " + c.zero(mt.Elem()) + ")", Ty: mt.Elem()}
 	case "strat": // strat(s, i): the byte at index i
 		c.needStrSub()
 		return TV{T: "(strat " + arg(0).T + " " + arg(1).T + ")", Ty: types.Typ[types.Int]}
